@@ -422,6 +422,21 @@ def kpt_lattices(tier, seed):
            ('hex', np.array([[0.5, 0.5, 0], [-s3, s3, 0], [0, 0, 1.6]])), ('tetragonal', np.diag([1., 1., 1.4])), ('ortho', np.diag([1., 1.2, 1.5])),
            ('monoclinic', np.array([[1., 0, 0], [0.3, 1.1, 0], [0, 0, 1.3]]).T), ('rhombohedral', np.eye(3) + 0.2 * (np.ones((3, 3)) - np.eye(3))),
            ('square2D', np.eye(2)), ('hex2D', np.array([[1, -0.5], [0, s3]])), ('rect2D', np.diag([1., 1.3])), ('oblique2D', np.array([[1, 0.3], [0, 1.2]]))]
+    # curated triclinic cells: three fold sweeps are needed / a mesh point sits on a zone face within roundoff
+    out += [('triclinic-needs-3-sweeps-a', np.array([[1.424, -0.426, 0.514], [0.077, 0.949, -0.116], [-0.147, -0.411, 1.157]])),
+            ('triclinic-needs-3-sweeps-b', np.array([[1.531, 0.549, 0.562], [-0.479, 0.989, 0.505], [-0.589, -0.24, 0.951]])),
+            ('triclinic-needs-3-sweeps-c', np.array([[0.677, -0.103, 0.572], [0.29, 1.494, 0.068], [0.443, -0.042, 1.488]])),
+            ('triclinic-point-on-zone-face', 0.5 * np.array([[0.8, 0.8, -0.7], [0.2, 0.8, -0.6], [-0.2, 0.4, 0.5]])),
+            ('triclinic-point-on-zone-face-b', np.array([[0.413, 0.495, -0.279], [-0.211, 1.17, 0.499], [-0.521, -0.038, 1.373]]))]
+    # cells used as given (noreduce=True, the YAML / fromdict route): skewed but valid descriptions
+    out += [('noreduce:acute-oblique-2D', np.array([[1., 1.7], [0., 0.6]])),
+            ('noreduce:hexagonal-a2+2a1', np.array([[0.5, 1.5, 0], [-s3, -s3, 0], [0, 0, 1.6]])),
+            ('noreduce:monoclinic-inclined-c', np.array([[1., 0, 2.3], [0, 1.1, 0], [0, 0, 0.9]])),
+            ('noreduce:sheared-cubic', np.array([[1., 2., 0], [0, 1., 0], [0, 0, 1.]]))]
+    # realistic lattice constants (the zone construction must not depend on the length unit)
+    out += [('fcc-a=3.6', 3.6 * np.array([[0, .5, .5], [.5, 0, .5], [.5, .5, 0]])), ('bcc-a=2.9', 2.9 * np.array([[-.5, .5, .5], [.5, -.5, .5], [.5, .5, -.5]])),
+            ('hex-a=3.2', 3.2 * np.array([[0.5, 0.5, 0], [-s3, s3, 0], [0, 0, 1.6]])), ('triclinic-a=5', 5. * np.array([[1.424, -0.426, 0.514], [0.077, 0.949, -0.116], [-0.147, -0.411, 1.157]])),
+            ('square2D-a=4', 4. * np.eye(2)), ('cubic-a=0.3', 0.3 * np.eye(3))]
     for k in range(6 if tier == 'quick' else 30):
         dim = 3 if k % 3 else 2
         A = np.eye(dim) + 0.6 * rng.uniform(-1, 1, (dim, dim))
@@ -438,9 +453,9 @@ def w_kpt(arg):
     label, latt = kpt_lattices(tier, seed)[idx]
     acc = Acc(label)
     dim = latt.shape[0]
-    c = crystal.Crystal(latt, [[np.zeros(dim)]])
+    c = crystal.Crystal(latt, [[np.zeros(dim)]], noreduce=label.startswith('noreduce:'))
     rng = np.random.default_rng(seed * 3 + idx)
-    W = 4
+    W = 4 if not label.startswith('noreduce:') else 6
     Gs = [c.reciplatt @ np.array(n) for n in itertools.product(range(-W, W + 1), repeat=dim) if any(n)]
     # invariant periodic test functions: cosine sums over complete shells of lattice vectors
     # (each shell is the complete point-group orbit of a lattice vector, so the function is invariant by construction)
@@ -454,7 +469,7 @@ def w_kpt(arg):
             if not any(np.allclose(R, Q, atol=1e-8) for Q in orb): orb.append(R)
         shells.append(orb)
         if len(shells) == 6: break
-    meshes = [(4,) * dim, (5,) * dim, tuple([4, 5, 6][:dim]), tuple([3, 6, 2][:dim])] if tier == 'quick' else \
+    meshes = [(4,) * dim, (5,) * dim, tuple([4, 5, 6][:dim]), tuple([3, 6, 2][:dim]), tuple([4, 4, 3][:dim]), tuple([6, 4, 5][:dim])] if tier == 'quick' else \
         [(4,) * dim, (5,) * dim, tuple([4, 5, 6][:dim]), tuple([3, 6, 2][:dim]), (7,) * dim, tuple([8, 3, 5][:dim]), (1,) * dim]
     for N in meshes:
         kf = c.fullkptmesh(N)
